@@ -1,6 +1,7 @@
 package rules
 
 import (
+	"fmt"
 	"go/token"
 	"go/types"
 	"strings"
@@ -67,6 +68,16 @@ func c07r1(c *core.Ctx) {
 					if fa, ok := st.Addr.(*ssa.FieldAddr); ok && core.TypeIs(fa.X.Type(), tConn) {
 						stored = core.FieldName(fa)
 					}
+				}
+			}
+			// the read path looks at a whole frame before it consumes it (Peek): the buffer must hold the largest well-formed frame,
+			// 2 + 1024 + 16 bytes on the wire; bufio's default is 4096
+			if g := core.Callee(s); g != nil && cn(g) == "NewReaderSize" && len(core.Args(s)) > 1 {
+				if k, isK := core.ConstInt(core.Args(s)[1]); isK {
+					c.Check(k >= 2+1024+16, "read-ahead-holds-a-frame@"+fname(f), posOf(s), "the read-ahead buffer holds a frame of the maximum size",
+						fmt.Sprintf("the read-ahead buffer has %d bytes, a frame of the maximum size takes 1042 on the wire: Peek of such a frame fails with bufio.ErrBufferFull, the read reports a decryption error and the connection is closed on a well-formed frame", k))
+				} else {
+					c.Undecided("read-ahead-holds-a-frame@"+fname(f), posOf(s), "size of the read-ahead buffer is not a constant")
 				}
 			}
 			if stored != "" {
